@@ -614,6 +614,11 @@ def generate(rng, tier):
         else:
             p = [u, rand_date(rng), rng.choice(LADDER)]
         cases.append({"op": "round" if rng.random() < 0.7 else "show", "p": p})
+    # unaligned week / weekday starts around 1 January, where calendar year and ISO year differ
+    for y in BOUNDARY_Y[1:-1]:
+        for m, d in ((1, 1), (1, 2), (1, 3), (12, 29), (12, 30), (12, 31)):
+            for u, n in ((1, 1), (1, 2), (1, 11), (0, 2)):
+                cases.append({"op": "round", "p": [u, [y, m, d], n]})
     # instants
     for i in range(250 * scale):
         c = rng.choice(bd) if i % 2 else rand_date(rng, lo=1)
